@@ -17,14 +17,14 @@
    order of the push_backs, which is what the scatter loop produces.  Index arithmetic is done
    in Z: `i -= 1; j -= 1` (mm.hpp:188-189) on an index token equal to INT64_MIN is a signed
    overflow (UB) in the pre-repair code and plain i-1 here -- found by the harness (UBSan),
-   finding C19-mm-index-decrement-overflow (fixed by f41c045: the range precondition, which
+   finding C19-mm-index-decrement-overflow (fixed by a04dd9c: the range precondition, which
    is what [chk_index] stands for, now precedes the decrement, so the overflow is unreachable).  The glue that splits
    a byte file into lines/tokens (std::getline, operator>> on isspace) lives in
    ocaml/fileio and is validated by byte-exact comparison with the real files.
 
    [mm_flags]: [mm_checked] (all checks on) is the reader AS IT IS since the repairs
-   f41c045 (index range before the decrement, symmetric => square), 436f08e (no trailing
-   data) and 60b70e9 (row_beg <= row_end) in /repo; this is the model the correspondence
+   a04dd9c (index range before the decrement, symmetric => square), 6a14a6a (no trailing
+   data) and 7c1d34c (row_beg <= row_end) in /repo; this is the model the correspondence
    harness runs (default flags "1111" in tools/props/C19.py).  [mm_current] (all checks off;
    the name is kept for the proofs) is the reader BEFORE those repairs: it is retained only
    as the subject of the historical refutation theorems (..._refuted). *)
